@@ -39,6 +39,11 @@ def main(argv=None) -> int:
         return 2
     except Exception:  # pylint:disable=broad-except
         traceback.print_exc()
+        if getattr(ctx, "violations", None) and not args.replay:
+            # concrete failing inputs had already been found on the implementation before the harness itself gave up: they are reported, the crash is recorded
+            ctx.coverage["harness_crash_after_violations"] = traceback.format_exc()[-1500:]
+            print(f"TOOL-NOTE [{prop}]: harness crashed after violations had been found; reporting those", file=sys.stderr)
+            return ctx.finish()
         print(f"TOOL-FAILURE [{prop}]: harness crashed", file=sys.stderr)
         return 2
 
